@@ -192,9 +192,13 @@ fn customize(kv: &[(String, X)], host: &mut Host, _shared: &Arc<c00pipe::Shared>
                 prepare!(req, _host, _path, _addr, move |limit: u128| {
                     let mut b = req.method().as_str().as_bytes().to_vec();
                     b.push(b':');
+                    // what `read_to_bytes(limit)` REALLY returns on a connection is echoed uncut; only the in-memory
+                    // `Body::Bytes` of the layer-4 probe (neither protocol: it hands out everything whatever the limit)
+                    // is cut to the limit, so that the probe yields the specification "the first `limit` bytes"
+                    let in_memory = matches!(req.body(), application::Body::Bytes(_));
                     match req.body_mut().read_to_bytes(*limit as usize).await {
-                        // (the in-memory `Body::Bytes` of the layer-4 probe hands out everything whatever the limit: cut here)
-                        Ok(data) => b.extend_from_slice(&data[..data.len().min(*limit as usize)]),
+                        Ok(data) if in_memory => b.extend_from_slice(&data[..data.len().min(*limit as usize)]),
+                        Ok(data) => b.extend_from_slice(&data),
                         Err(_) => b.extend_from_slice(b"<body read error>"),
                     }
                     let mut resp = Response::new(Bytes::from(b));
@@ -203,6 +207,91 @@ fn customize(kv: &[(String, X)], host: &mut Host, _shared: &Arc<c00pipe::Shared>
                 }),
             );
         }
+    }
+    // echo2: (L path a b) — calls `read_to_bytes(a)` and then `read_to_bytes(b)`; answers "<METHOD>:" ++ first ++ "|" ++ second
+    if let Some(hs) = kv_get(kv, "echo2").and_then(X::as_l) {
+        for h in hs {
+            let Some([path, a, b]) = h.as_l() else { continue };
+            let (Some(path), Some(a), Some(b)) = (path.as_b(), a.as_n(), b.as_n()) else { continue };
+            host.extensions.add_prepare_single(
+                c00pipe::leak(path),
+                prepare!(req, _host, _path, _addr, move |a: u128, b: u128| {
+                    let mut out = req.method().as_str().as_bytes().to_vec();
+                    out.push(b':');
+                    let in_memory = matches!(req.body(), application::Body::Bytes(_));
+                    for (i, l) in [*a as usize, *b as usize].into_iter().enumerate() {
+                        if i == 1 {
+                            out.push(b'|');
+                        }
+                        match req.body_mut().read_to_bytes(l).await {
+                            Ok(data) if in_memory => out.extend_from_slice(&data[..data.len().min(l)]),
+                            Ok(data) => out.extend_from_slice(&data),
+                            Err(_) => out.extend_from_slice(b"<body read error>"),
+                        }
+                    }
+                    let mut resp = Response::new(Bytes::from(out));
+                    resp.headers_mut().insert("content-type", HeaderValue::from_static("text/plain"));
+                    FatResponse::new(resp, comprash::ServerCachePreference::None).with_compress(comprash::CompressPreference::None)
+                }),
+            );
+        }
+    }
+    // stream: (L path body (L chunk ...) (L [len]) (L (L name value) ...) status delay_ms) — a response whose `Response` body is
+    // `body` and whose `ResponsePipeFuture` then writes the chunks (sleeping `delay_ms` before each);
+    // `len` given: `with_future_and_len(len)`, else `with_future` (kvarn is told no length)
+    if let Some(hs) = kv_get(kv, "stream").and_then(X::as_l) {
+        for h in hs {
+            let Some([path, body, chunks, len, headers, status, delay]) = h.as_l() else { continue };
+            let (Some(path), Some(body), Some(chunks), Some(len), Some(headers), Some(status), Some(delay)) =
+                (path.as_b(), body.as_b(), chunks.as_l(), len.as_l(), headers.as_l(), status.as_n(), delay.as_n())
+            else {
+                continue;
+            };
+            let chunks: Vec<Bytes> = chunks.iter().filter_map(|c| c.as_b().map(Bytes::copy_from_slice)).collect();
+            let len = len.first().and_then(X::as_n).map(|n| n as u64);
+            let headers: Vec<(Vec<u8>, Vec<u8>)> =
+                headers.iter().filter_map(|h| h.as_l().and_then(|p| Some((p.first()?.as_b()?.to_vec(), p.get(1)?.as_b()?.to_vec())))).collect();
+            let spec = Arc::new((Bytes::copy_from_slice(body), chunks, len, headers, status as u16, delay as u64));
+            host.extensions.add_prepare_single(
+                c00pipe::leak(path),
+                prepare!(_req, _host, _path, _addr, move |spec: Arc<(Bytes, Vec<Bytes>, Option<u64>, Vec<(Vec<u8>, Vec<u8>)>, u16, u64)>| {
+                    let (body, chunks, len, headers, status, delay) = (&spec.0, spec.1.clone(), spec.2, &spec.3, spec.4, spec.5);
+                    let fut = response_pipe_fut!(pipe, _host, move |chunks: Vec<Bytes>, delay: u64| {
+                        for chunk in chunks.iter() {
+                            if *delay > 0 {
+                                tokio::time::sleep(Duration::from_millis(*delay)).await;
+                            }
+                            if pipe.send(chunk.clone()).await.is_err() {
+                                break;
+                            }
+                        }
+                    });
+                    let mut b = Response::builder().status(status);
+                    for (k, v) in headers {
+                        b = b.header(&k[..], &v[..]);
+                    }
+                    let resp = b.body(body.clone()).unwrap();
+                    let fat = FatResponse::new(resp, comprash::ServerCachePreference::None).with_compress(comprash::CompressPreference::None);
+                    match len {
+                        Some(len) => fat.with_future_and_len(fut, len),
+                        None => fat.with_future(fut),
+                    }
+                }),
+            );
+        }
+    }
+    // sfiles: prefix — `kvarn::extensions::stream_body()` answers every path that starts with it (files of the fixture directory)
+    if let Some(prefix) = kv_get(kv, "sfiles").and_then(X::as_b) {
+        let prefix: &'static str = c00pipe::leak(prefix);
+        host.extensions.add_prepare_fn(
+            Box::new(move |req, _host| req.uri().path().starts_with(prefix)),
+            kvarn::extensions::stream_body(),
+            extensions::Id::new(16, "c20 stream_body"),
+        );
+    }
+    // limit: max — the host's request limiter counts every request and lets `max` of them pass (429 up to 3 * max, then drop)
+    if let Some(max) = kv_get(kv, "limit").and_then(X::as_n) {
+        host.limiter = kvarn::limiting::Manager::new(max as usize, 1, 100_000.0);
     }
 }
 
@@ -571,6 +660,29 @@ fn x_response(resp: &Response<Bytes>, sd: u128) -> X {
     X::L(vec![X::n(version), X::n(resp.status().as_u16()), x_headers(&headers), X::b(resp.body()), X::N(sd)])
 }
 
+/// what a `ResponsePipeFuture` writes, observed through a `ResponseBodyPipe::Http1` over a plain loopback pair
+async fn run_future(mut fut: ResponsePipeFuture, host: &Host) -> Option<Vec<u8>> {
+    let listener = tokio::net::TcpListener::bind("127.0.0.1:0").await.ok()?;
+    let addr = listener.local_addr().ok()?;
+    let mut client = tokio::net::TcpStream::connect(addr).await.ok()?;
+    let (server_end, _) = listener.accept().await.ok()?;
+    let enc = kvarn::encryption::Encryption::new_tcp(server_end, None).await.ok()?;
+    let pipe = Arc::new(Mutex::new(enc));
+    let reader = tokio::spawn(async move {
+        let mut v = Vec::new();
+        let _ = tokio::time::timeout(T, client.read_to_end(&mut v)).await;
+        v
+    });
+    {
+        let mut body_pipe = application::ResponseBodyPipe::Http1(Arc::clone(&pipe));
+        fut.call(&mut body_pipe, host).await;
+        let _ = body_pipe.close().await;
+    }
+    let _ = pipe.lock().await.shutdown().await;
+    drop(pipe);
+    reader.await.ok()
+}
+
 /// layer 4 observed in process
 fn l4(x: &X) -> X {
     let Some([cfg, reqs, mode]) = x.as_l() else { return X::bad() };
@@ -598,15 +710,21 @@ fn l4(x: &X) -> X {
             let e416 = kvarn::error::default(StatusCode::RANGE_NOT_SATISFIABLE, Some(host), Some(b"Range start after end of body")).await;
             (reply, e416)
         });
-        if reply.future.is_some() {
-            return X::L(vec![X::N(96)]);
-        }
         let sd = match &reply.sanitize_data {
             Ok(_) => 0,
             Err(utils::parse::SanitizeError::UnsafePath) => 1,
             Err(utils::parse::SanitizeError::RangeNotSatisfiable) => 2,
         };
-        out.push(x_response(&reply.response, sd));
+        let mut xr = x_response(&reply.response, sd);
+        // a streaming response: what its `ResponsePipeFuture` writes is observed here, in process, through a plain pipe
+        // (no `SendKind::send`, no protocol arm): (L bytes (L [len]))
+        if let Some((fut, len)) = reply.future {
+            let Some(written) = rt().block_on(run_future(fut, host)) else { return X::L(vec![X::N(96), X::b("the stream future could not be observed")]) };
+            if let X::L(v) = &mut xr {
+                v.push(X::L(vec![X::b(&written), X::L(len.map(|l| X::n(l)).into_iter().collect())]));
+            }
+        }
+        out.push(xr);
         err416.get_or_insert_with(|| x_response(&e416, 0));
     }
     if let Some(b) = built.take() {
